@@ -8,6 +8,7 @@ import (
 	"sync"
 	"sync/atomic"
 	"time"
+	"unsafe"
 )
 
 func init() {
@@ -44,6 +45,7 @@ type vc10Pool struct {
 	dead  []*vc10Conn
 	next  int
 	audit *vcAudit
+	mark  uint64
 }
 
 func (p *vc10Pool) open() *vc10Conn {
@@ -165,8 +167,8 @@ func vcRunC10(t *vcTrial) {
 		return
 	}
 	defer ln.Close()
-	pool := &vc10Pool{t: t, ln: ln, audit: vcStartAudit()}
 	mark := vcTraceMark()
+	pool := &vc10Pool{t: t, ln: ln, audit: vcStartAudit(), mark: mark}
 	window := r.chance(40)
 	t.P("fetch_dispatch_window", window)
 	nops := r.rng(12, 40)
@@ -466,7 +468,38 @@ func (p *vc10Pool) judgeEcho(vc *vc10Conn, err error, hist []string) {
 		p.t.Violate("C10", "bystander_disturbed", "live connection #%d: %v - more than a minute, while a fresh probe connection was served at once (its slot state is %d, 1 is normal; its slot is shared with a closed connection: %v; unread input buffered %d, handler invocations %d); history %v", vc.id, err, state, p.sharesDead(vc), vc.inner.inputBuffer.Len(), atomic.LoadInt32(&vc.reqs), hist)
 		return
 	}
-	p.t.Violate("C10", "bystander_disturbed", "live connection #%d: %v (its slot state is %d, 1 is normal; its slot is shared with a closed connection: %v); history %v", vc.id, err, state, p.sharesDead(vc), hist)
+	p.t.Violate("C10", "bystander_disturbed", "live connection #%d: %v (its slot state is %d, 1 is normal; its slot is shared with a closed connection: %v; %s); history %v", vc.id, err, state, p.sharesDead(vc), p.diagnose(vc), hist)
+}
+
+// diagnose says what netpoll did to a bystander: who closed its descriptor number, whether its
+// close callbacks ran and on whose behalf, and the poller events dispatched to its slot.
+func (p *vc10Pool) diagnose(vc *vc10Conn) string {
+	who := func(owner uintptr) string {
+		for _, l := range append(append([]*vc10Conn{}, p.live...), p.dead...) {
+			if uintptr(unsafe.Pointer(l.inner)) == owner || uintptr(unsafe.Pointer(&l.inner.netFD)) == owner {
+				return fmt.Sprintf("connection #%d (closed=%v)", l.id, l.closed)
+			}
+		}
+		return fmt.Sprintf("owner %x", owner&0xffffff)
+	}
+	out := fmt.Sprintf("fd %d, close callbacks ran %d, closed by user %v / by poller %v", vc.fd, atomic.LoadInt32(&vc.cbRan), vc.inner.isCloseBy(user), vc.inner.isCloseBy(poller))
+	p.audit.mu.Lock()
+	for _, e := range p.audit.fds {
+		if e.FD == vc.fd {
+			out += fmt.Sprintf("; fd-event seq %d kind %d by %s (open=%v inode %d)", e.Seq, e.Kind, who(e.Owner), e.Open, e.Ino)
+		}
+	}
+	p.audit.mu.Unlock()
+	n := 0
+	evs := vcTraceSince(p.mark)
+	for i := len(evs) - 1; i >= 0 && n < 24; i-- {
+		e := evs[i]
+		if e.Obj == uintptr(unsafe.Pointer(vc.op)) || e.Obj == uintptr(unsafe.Pointer(vc.inner)) {
+			out += fmt.Sprintf("; [%d %s arg=%d]", e.Seq, vcPointName(int(e.Point)), e.Arg)
+			n++
+		}
+	}
+	return out
 }
 
 func (p *vc10Pool) sharesDead(vc *vc10Conn) bool {
